@@ -824,7 +824,10 @@ class Server():
                         requestant.makeParser()  # resets requestant parser
                 else:  # not persistent so close and remove requestant and responder
                     ix = self.servant.ixes[ca]
-                    if not ix.txbs:  # wait for outgoing txbs to be empty
+                    # .persisted is that of the next request as soon as its
+                    # head is parsed so wait until that request has ended too
+                    # wait for outgoing txbs to be empty
+                    if requestant.ended and not ix.txbs:
                         self.closeConnection(ca)
 
     def service(self):
